@@ -5,6 +5,7 @@ package protocompile
 import (
 	"context"
 	"errors"
+	"sync"
 
 	"google.golang.org/protobuf/types/descriptorpb"
 
@@ -111,4 +112,25 @@ func HarnessC06Sched() {
 	_, err := c.Compile(context.Background(), names[:nreq]...)
 	zz.Assert((err != nil) == cyclic, "C06/compile-fails-iff-import-cycle-reachable")
 	zz.Reach("C06/compile-returned")
+}
+
+// HarnessC06SchedWitness is the vacuity guard of the interleaving scheduler: two goroutines
+// append their mark under a mutex; both arrival orders must be reached (the driver requires
+// every C06/ reach label), i.e. the explorer really enumerates more than one schedule.
+func HarnessC06SchedWitness() {
+	zz.Schedule(1)
+	var mu sync.Mutex
+	var wg sync.WaitGroup
+	order := ""
+	wg.Add(2)
+	go func() { defer wg.Done(); mu.Lock(); order += "a"; mu.Unlock() }()
+	go func() { defer wg.Done(); mu.Lock(); order += "b"; mu.Unlock() }()
+	wg.Wait()
+	zz.Assert(len(order) == 2, "C06/witness-both-goroutines-ran")
+	if order == "ab" {
+		zz.Reach("C06/schedule-witness-a-before-b")
+	}
+	if order == "ba" {
+		zz.Reach("C06/schedule-witness-b-before-a")
+	}
 }
